@@ -292,6 +292,44 @@ def cache_section(ctx, M):
               'induction over the call sequence (keys of other calls are untouched: miss.cache_maps_the_key_to_the_result_and_keeps_the_rest)')
 
 
+def cache_decorator_section(ctx, M):
+    """cache(function): refuses methods (first parameter self / cls), otherwise returns cache_func(function)"""
+    mc = M['mc']
+    fdef = mc.func('cache')
+    th = new_theory(M)
+    made = []
+
+    def construct(ex, st, args, kwargs, star=None, dstar=None):
+        made.append((args, kwargs))
+        return SV('constructed', None, cls='cache_func')
+    th.contracts['cache_func'] = construct
+    inline = dict(M['inline']); inline['cache'] = (mc, fdef)
+    ex = Exec(mc, [th], inline=inline, name='cache.decorator')
+    outs = ex.run_function(State(), 'cache', [V(F, 'callable')], {})
+    P = ARGS(F)
+    first = AT(P, 0)
+    inst = th.inst([first], [0])
+    for ob in ex.obligations:
+        ob.hyps = list(ob.hyps) + inst
+    ctx.absorb(ex)
+    ctx.record_function(mc, 'cache', fdef, ex.stmts_executed)
+    is_method = And(LEN(P) > 0, Or(first == th.strv('self'), first == th.strv('cls')))
+    kw = dict(witness=dict(n_params=LEN(P)), replay=rp('cache'))
+    nret = 0
+    for out in outs:
+        hy = ex.facts + out.st.pc + inst
+        if out.kind == 'raise':
+            ctx.post('cache.decorator.raises_only_ValueError_and_only_for_methods', hy, And(BoolVal(out.val == 'ValueError'), is_method), kind='safety', **kw)
+            continue
+        nret += 1
+        ok = out.val.kind == 'constructed' and len(made) == 1 and len(made[0][0]) == 1 and made[0][0][0].kind == 'val' and not made[0][1]
+        ctx.post('cache.decorator.returns_cache_func_of_the_function', hy, And(BoolVal(ok), made[0][0][0].t == F if ok else BoolVal(False), Not(is_method)), **kw)
+    if not nret:
+        raise OutOfSubset('cache() has no returning path')
+    ctx.cover('cache.decorator.precondition.method', [is_method] + inst)
+    ctx.cover('cache.decorator.precondition.function', [Not(is_method)] + inst)
+
+
 # =============================================================================================== try_value / try_back
 def try_value_section(ctx, M):
     mdec = M['mdec']
@@ -356,19 +394,20 @@ def try_value_section(ctx, M):
     def is_try_value_with(node, expect):
         return (isinstance(node, ast.Call) and isinstance(node.func, ast.Name) and node.func.id == 'try_value' and not node.args
                 and len(node.keywords) == 1 and node.keywords[0].arg == 'value' and ast.unparse(node.keywords[0].value) == expect)
+    fam = dict(witness=dict(family=BoolVal(True)), replay=rp('try_value', 'family'))
     for name, expect in (('try_nan', 'np.nan'), ('try_zero', '0'), ('try_true', 'True'), ('try_false', 'False'), ('try_list', '[]')):
         node = mdec.global_assign(name)
-        ctx.post('try_family.%s_is_try_value_with_fallback_%s' % (name, expect.replace('.', '_').replace('[]', 'empty_list')), [], BoolVal(is_try_value_with(node, expect)))
+        ctx.post('try_family.%s_is_try_value_with_fallback_%s' % (name, expect.replace('.', '_').replace('[]', 'empty_list')), [], BoolVal(is_try_value_with(node, expect)), **fam)
     node = mdec.global_assign('try_none')
-    ctx.post('try_family.try_none_is_try_value', [], BoolVal(isinstance(node, ast.Name) and node.id == 'try_value'))
+    ctx.post('try_family.try_none_is_try_value', [], BoolVal(isinstance(node, ast.Name) and node.id == 'try_value'), **fam)
     init = M['inline']['try_value.__init__'][1]
     names = [a.arg for a in init.args.args]
     dflt = dict(zip(names[len(names) - len(init.args.defaults):], [ast.unparse(d) for d in init.args.defaults]))
     ctx.post('try_family.defaults_are_one_attempt_and_return_the_fallback', [],
-             BoolVal(dflt.get('repeat') == '0' and dflt.get('return_value') == 'True' and dflt.get('value') == 'None' and dflt.get('sleep') == '0'))
+             BoolVal(dflt.get('repeat') == '0' and dflt.get('return_value') == 'True' and dflt.get('value') == 'None' and dflt.get('sleep') == '0'), **fam)
     sup = find(init, lambda n: isinstance(n, ast.Call) and isinstance(n.func, ast.Attribute) and n.func.attr == '__init__', 'super().__init__ call')
     passed = {k.arg: ast.unparse(k.value) for k in sup.keywords}
-    ctx.post('try_family.init_forwards_its_parameters_unchanged', [], BoolVal(all(passed.get(n) == n for n in ('function', 'repeat', 'sleep', 'return_value', 'value', 'verbose'))))
+    ctx.post('try_family.init_forwards_its_parameters_unchanged', [], BoolVal(all(passed.get(n) == n for n in ('function', 'repeat', 'sleep', 'return_value', 'value', 'verbose'))), **fam)
 
 
 def try_back_section(ctx, M):
@@ -788,6 +827,7 @@ def wrapper_section(ctx, M):
 def build(ctx):
     M = machinery(ctx)
     ctx.guarded('cache', lambda: cache_section(ctx, M))
+    ctx.guarded('cache.decorator', lambda: cache_decorator_section(ctx, M))
     ctx.guarded('try_value', lambda: try_value_section(ctx, M))
     ctx.guarded('try_back', lambda: try_back_section(ctx, M))
     ctx.guarded('kwargs_support', lambda: kwargs_support_section(ctx, M))
